@@ -67,8 +67,8 @@ Proof.
     apply Forall_rev. constructor; assumption.
   - inversion Hw as [|? ? Hw0 Hrest]; subst.
     destruct (size <? blen word0) eqn:Es.
-    + pose proof (take_bytes_app size word0) as Happ.
-      destruct (take_bytes size word0) as [word after]. cbn [fst snd] in Happ.
+    + pose proof (split_word_app size word0) as Happ.
+      destruct (split_word size word0) as [word after]. cbn [fst snd] in Happ.
       rewrite <- Happ, allc_app in Hw0. apply andb_true_iff in Hw0 as [Hb Ha].
       destruct word as [|w0 word']; [discriminate|]. cbn [andb] in H.
       destruct (blen cur + blen (w0 :: word') <=? size).
@@ -101,10 +101,10 @@ Proof.
 Qed.
 
 Lemma btw_loop_nonnil fuel : forall size words done cur ls,
-  Forall nonnil words -> Forall nonnil done -> (cur = [] -> done = []) ->
+  4 <= size -> Forall nonnil words -> Forall nonnil done -> (cur = [] -> done = []) ->
   btw_loop fuel size words done cur = Ok ls -> Forall nonnil ls \/ ls = [[]].
 Proof.
-  induction fuel as [|f IH]; intros size words done cur ls Hw Hd Hc H; [discriminate|].
+  induction fuel as [|f IH]; intros size words done cur ls Hs4 Hw Hd Hc H; [discriminate|].
   cbn [btw_loop] in H. destruct words as [|word0 rest].
   - injection H as <-. destruct cur as [|c0 cur'].
     + right. rewrite (Hc eq_refl). reflexivity.
@@ -112,20 +112,20 @@ Proof.
       constructor; [discriminate|exact Hd].
   - inversion Hw as [|? ? Hw0 Hrest]; subst.
     destruct (size <? blen word0) eqn:Es.
-    + pose proof (take_bytes_app size word0) as Happ. pose proof (take_bytes_le size word0) as Hle.
-      destruct (take_bytes size word0) as [word after]. cbn [fst snd] in Happ, Hle.
+    + pose proof (split_word_app size word0) as Happ. pose proof (split_word_le size word0 Hs4) as Hle.
+      destruct (split_word size word0) as [word after]. cbn [fst snd] in Happ, Hle.
       destruct word as [|w0 word']; [discriminate|]. cbn [andb] in H.
       assert (Ha : nonnil after).
       { intro E. subst after. rewrite app_nil_r in Happ. subst word0. cbn [blen] in *. lia. }
       destruct (blen cur + blen (w0 :: word') <=? size) eqn:E.
-      * eapply IH in H; [exact H|constructor; assumption|exact Hd|].
+      * eapply IH in H; [exact H|exact Hs4|constructor; assumption|exact Hd|].
         intro E2. destruct cur; discriminate.
-      * eapply IH in H; [exact H|constructor; assumption| |discriminate].
+      * eapply IH in H; [exact H|exact Hs4|constructor; assumption| |discriminate].
         constructor; [|exact Hd]. intro E2. subst cur. cbn [blen] in *. lia.
     + cbn [andb] in H. destruct (blen cur + blen word0 <=? size) eqn:E.
-      * eapply IH in H; [exact H|exact Hrest|exact Hd|].
+      * eapply IH in H; [exact H|exact Hs4|exact Hrest|exact Hd|].
         intro E2. destruct cur; [cbn in E2; subst; exfalso; apply Hw0; reflexivity|discriminate].
-      * eapply IH in H; [exact H|exact Hrest| |intro E2; subst; exfalso; apply Hw0; reflexivity].
+      * eapply IH in H; [exact H|exact Hs4|exact Hrest| |intro E2; subst; exfalso; apply Hw0; reflexivity].
         constructor; [|exact Hd]. intro E2. subst cur. cbn [blen] in *. lia.
 Qed.
 
@@ -139,10 +139,10 @@ Proof.
 Qed.
 
 Lemma byteTextWrap_nonnil s n ls :
-  s <> [] -> byteTextWrap (split_chunks s) n = Ok ls -> Forall nonnil ls.
+  (4 <= n)%Z -> s <> [] -> byteTextWrap (split_chunks s) n = Ok ls -> Forall nonnil ls.
 Proof.
-  intros Hs H. pose proof (wrap_munge _ _ _ H) as Hc. apply byteTextWrap_inv in H.
-  eapply btw_loop_nonnil in H; [|apply runs_nonnil|constructor|reflexivity].
+  intros Hn4 Hs H. pose proof (wrap_munge _ _ _ H) as Hc. apply byteTextWrap_inv in H.
+  eapply btw_loop_nonnil in H; [|lia|apply runs_nonnil|constructor|reflexivity].
   destruct H as [H|H]; [exact H|]. subst ls. cbn in Hc. exfalso. exact (munge_nonnil s Hs (eq_sym Hc)).
 Qed.
 
